@@ -38,7 +38,7 @@ theorem C11_flex_window_window_step_only_charges (ops : BatOps α B) (law : FwLa
     (h : FlexWindow.step ops env w window events = .ok (w', win', cmds)) :
     ∃ g', w'.gcs = [g'] ∧ g.currentLoad ≤ g'.currentLoad := by
   obtain ⟨g', hg', _, _, _, h4, _⟩ :=
-    step_balanced_rel ops law env hstrat heps false w w' window win' events cmds g hg hM (by simp) h
+    step_balanced_rel ops law env hstrat heps false w w' window win' events cmds g hg hM h
   exact ⟨g', hg', h4 (by rw [hwin]; rfl)⟩
 
 /-- Non-vacuity: window closed now, open from the next hour on, three hours to go: the windows
